@@ -15,12 +15,23 @@ import tempfile
 import time
 import traceback
 
-from . import digest, env, known, minimise
-from .result import HarnessError, Violation
+from . import digest, env, known, minimise, stall
+from .result import HarnessError, RunResult, Violation
 from .rng import Rng, run_seed
 
 DEFAULT_SEED = 20261001
 MAIN = os.path.join(env.VERIF_DIR, 'sim', 'main.py')
+MAX_STALLS_PER_WORKER = 3
+MAX_CONFIRMATIONS = 3      # stalled runs re-executed under the step budget per batch (each costs up to a minute)
+
+
+class JobList(list):
+    """The jobs of one batch; grows when stalled runs are confirmed / ranges are continued."""
+
+    def __init__(self, *a):
+        super().__init__(*a)
+        self.skipped = []        # (light, hashseed, start, stop, step) ranges given up after repeated stalls
+        self.budget = STEP_BUDGET
 PROPS = ['C05', 'C06', 'C09', 'C12', 'C15', 'C16', 'C17', 'C20']
 
 
@@ -52,11 +63,38 @@ def plan_run(prop, seed, tier, idx):
     return trace
 
 
+# logical-time budget (penman line events of the main thread) used to confirm a suspected hang; >= 100 x the
+# largest run of any property on the unchanged tree (measured by tools/stepmax.py, DESIGN section 12)
+STEP_BUDGET = 60_000_000
+# wall-clock seconds after which a single run is *suspected* to hang (decides nothing, see core/stall.py)
+STALL_S = 90
+
+
 def execute(prop, trace):
-    """Execute; any exception escaping the property module is a harness error."""
-    res = prop.execute(trace)
+    """Execute; any exception escaping the property module is a harness error.  A trace that carries a
+    ``step_budget`` is executed under the logical clock: not returning within the budget is the violation
+    ``termination:no-return-within-step-budget`` (bounded liveness, implied by every "returns ..." clause)."""
+    budget = trace.get('step_budget')
+    if not budget:
+        res = prop.execute(trace)
+        if res.trace is None:
+            res.trace = trace
+        return res
+    sb = stall.StepBudget(budget)
+    try:
+        with sb:
+            res = prop.execute(trace)
+    except stall.BudgetExceeded:
+        res = RunResult()
+        res.violate('termination', 'no-return-within-step-budget', budget=budget,
+                    note='the run was still executing penman code after this many line events of the main thread; '
+                         'the largest run of this property on the unchanged tree needs less than 1 % of it')
+        res.trace = trace
+        return res
     if res.trace is None:
         res.trace = trace
+    res.trace.setdefault('step_budget', budget)
+    res.stats['step.main_thread_line_events_under_budget'] = sb.steps
     return res
 
 
@@ -79,7 +117,21 @@ def worker_main(a):
         try:
             trace = plan_run(prop, a.seed, a.tier, idx)
             dec = digest.sha(trace)
-            res = execute(prop, trace)
+            if a.budget:
+                trace['step_budget'] = a.budget
+            try:
+                if a.stall and not a.budget:
+                    stall.arm(a.stall)
+                res = execute(prop, trace)
+            finally:
+                stall.disarm()
+        except stall.Stalled:
+            # suspected hang: this interpreter may be left in any state (parked threads, patched globals),
+            # so it stops here; the parent confirms under the logical clock and continues the range elsewhere
+            stall.disarm()
+            out['stalled'] = idx
+            out['resume_from'] = idx + a.step
+            break
         except Exception:
             out['errors'].append({'run': idx, 'tb': traceback.format_exc()})
             if len(out['errors']) > 5:
@@ -125,9 +177,10 @@ def worker_main(a):
 # parent
 
 class Job:
-    def __init__(self, name, hashseed, start, stop, step, light):
+    def __init__(self, name, hashseed, start, stop, step, light, budget=0, stall_s=0, stalls=0):
         self.name, self.hashseed = name, hashseed
         self.start, self.stop, self.step, self.light = start, stop, step, light
+        self.budget, self.stall_s, self.stalls = budget, stall_s, stalls
         self.proc = None
         self.out = None
         self.log = None
@@ -146,6 +199,10 @@ def _spawn(job, pid, tier, seed, scratch, timeout):
            '--step', str(job.step), '--out', job.out, '--timeout', str(timeout)]
     if job.light:
         cmd.append('--light')
+    if job.budget:
+        cmd += ['--budget', str(job.budget)]
+    if job.stall_s:
+        cmd += ['--stall', str(job.stall_s)]
     lf = open(job.log, 'w')
     job.proc = subprocess.Popen(cmd, stdout=lf, stderr=subprocess.STDOUT, env=e,
                                 cwd=env.VERIF_DIR)
@@ -170,6 +227,23 @@ def _run_jobs(jobs, pid, tier, seed, scratch, slots, timeout, deadline):
             if rc == 0 and os.path.exists(j.out):
                 with open(j.out) as fh:
                     j.result = json.load(fh)
+                if j.result.get('stalled') is not None:
+                    # a run went on for far longer than any run of this property takes: confirm under the
+                    # logical clock (fresh interpreter, step budget) and continue the range in a new worker
+                    idx = j.result['stalled']
+                    if sum(1 for x in jobs if x.budget) < MAX_CONFIRMATIONS:
+                        jobs.append(Job(f'{j.name}-c{idx}', j.hashseed, idx, idx + 1, 1, j.light, budget=jobs.budget))
+                        pending.insert(0, jobs[-1])
+                    else:
+                        jobs.skipped.append((j.light, j.hashseed, idx, idx + 1, 1))
+                    nxt = j.result['resume_from']
+                    if nxt < j.stop:
+                        if j.stalls + 1 >= MAX_STALLS_PER_WORKER:
+                            jobs.skipped.append((j.light, j.hashseed, nxt, j.stop, j.step))
+                        else:
+                            jobs.append(Job(f'{j.name}-r{nxt}', j.hashseed, nxt, j.stop, j.step, j.light,
+                                            stall_s=j.stall_s, stalls=j.stalls + 1))
+                            pending.append(jobs[-1])
             else:
                 with open(j.log) as fh:
                     tail = fh.read()[-4000:]
@@ -201,12 +275,15 @@ def check(pid, tier, runs=None, workers=None, quiet=False):
 
     scratch = tempfile.mkdtemp(prefix=f'vsim-{pid}-')
     try:
-        jobs = [Job(f'p{w}', 0, w, nruns, workers, False) for w in range(workers)]
+        stall_s = float(os.environ.get('VSIM_STALL_S', 0) or cfg.get('stall_s', STALL_S))
+        step_budget = int(cfg.get('step_budget', STEP_BUDGET))
+        jobs = JobList(Job(f'p{w}', 0, w, nruns, workers, False, stall_s=stall_s) for w in range(workers))
+        jobs.budget = step_budget
         if replica_runs:
             per = max(1, workers // max(1, len(hash_seeds)))
             for hs in hash_seeds:
                 for k in range(per):
-                    jobs.append(Job(f'h{hs}-{k}', hs, k, replica_runs, per, True))
+                    jobs.append(Job(f'h{hs}-{k}', hs, k, replica_runs, per, True, stall_s=stall_s))
         failures = _run_jobs(jobs, pid, tier, seed, scratch, workers, timeout,
                              t0 + timeout + 60)
     finally:
@@ -246,9 +323,15 @@ def check(pid, tier, runs=None, workers=None, quiet=False):
         for e in errors[:3]:
             print(f"HARNESS-FAILURE: exception in run {e['run']}\n{e['tb']}")
         return 2
-    if len(primary) != nruns:
-        print(f'HARNESS-FAILURE: {len(primary)} of {nruns} runs reported')
+    nstalled = sum(1 for j in jobs if j.budget)
+    skipped = sum(len(range(st, sp, sk)) for light, _, st, sp, sk in jobs.skipped if not light)
+    if len(primary) + skipped != nruns:
+        print(f'HARNESS-FAILURE: {len(primary)} of {nruns} runs reported ({skipped} given up after repeated stalls)')
         return 2
+    if nstalled:
+        print(f'NOTE: {nstalled} runs exceeded the wall-clock limit of {stall_s:.0f} s and were re-executed under the '
+              f'step budget of {step_budget} line events'
+              + (f'; {skipped} runs of the same workers were not executed' if skipped else ''))
 
     # determinism across hash seeds ------------------------------------------
     dec_mismatch, ev_mismatch, replicas = [], [], 0
@@ -257,7 +340,9 @@ def check(pid, tier, runs=None, workers=None, quiet=False):
             continue
         for idx, dec, ev, nv in j.result['runs']:
             replicas += 1
-            p = primary[idx]
+            p = primary.get(idx)
+            if p is None:
+                continue
             if p[0] != dec:
                 dec_mismatch.append((idx, j.hashseed))
             elif p[1] != ev:
@@ -321,7 +406,15 @@ def check(pid, tier, runs=None, workers=None, quiet=False):
         if v.sig in done_sigs or len(done_sigs) >= cfg.get('max_reports', 2):
             continue
         done_sigs.add(v.sig)
-        small, v2, nexec = minimise.minimise(prop, ex['trace'], v, budget_s=cfg.get('shrink_s', 45))
+        start_trace = ex['trace']
+        if v.oracle == 'termination':
+            # shrink under 1 % of the budget (any run of the unchanged tree stays below that), report under the full one
+            start_trace = dict(start_trace, step_budget=max(step_budget // 100, 200_000))
+        small, v2, nexec = minimise.minimise(prop, start_trace, v, budget_s=cfg.get('shrink_s', 45),
+                                              execute=lambda t: execute(prop, t), stall_s=stall_s)
+        if v.oracle == 'termination':
+            small = dict(small, step_budget=step_budget)
+            v2 = Violation(v2.oracle, v2.cls, dict(v2.detail, budget=step_budget))
         kid = known.match(prop, kn, small, v2)
         if kid:
             ent = known.entry(kn, kid)
@@ -329,7 +422,11 @@ def check(pid, tier, runs=None, workers=None, quiet=False):
                                f"[matched after minimisation, run {ex['run']}]")
             continue
         path = write_replay(pid, seed, ex['run'], small, v2, original_ops=ex['trace'])
-        ok, msg = verify_replay(path)
+        ok, msg = verify_replay(path, timeout=300 + step_budget // 400_000)
+        if not ok and v.oracle == 'termination':
+            # the shrunk history is only slow, not endless: report the original run
+            path = write_replay(pid, seed, ex['run'], dict(ex['trace'], step_budget=step_budget), v2)
+            ok, msg = verify_replay(path, timeout=300 + step_budget // 400_000)
         note = ''
         if not ok:
             ok, msg2 = verify_replay(path, hashseed=0)
@@ -388,7 +485,8 @@ def check(pid, tier, runs=None, workers=None, quiet=False):
         with open(rpath) as fh:
             doc = json.load(fh)
         nreg += 1
-        rres = execute(prop, doc['trace'])
+        # under the logical clock: a fixture that no longer returns must not hang the parent
+        rres = execute(prop, dict(doc['trace'], step_budget=step_budget))
         for v in rres.violations:
             if known.match(prop, kn, rres.trace, v) or v.sig in reported:
                 continue
@@ -402,9 +500,14 @@ def check(pid, tier, runs=None, workers=None, quiet=False):
             break
     for line in sorted(set(known_lines)):
         print(line)
+    if skipped and not any(r.startswith('termination:') for r in reported):
+        print(f'HARNESS-FAILURE: {skipped} runs were given up after repeated wall-clock stalls although no run exceeded '
+              f'the step budget (machine overloaded?)')
+        return 2
+    nruns = len(primary)
 
     nab = sum(aborted.values())
-    if nab > max(2, 0.01 * nruns):
+    if nab > max(2, 0.01 * nruns) and rc != 1:
         print(f'HARNESS-FAILURE: {nab} of {nruns} runs aborted at a cap: {dict(aborted)}')
         return 2
 
@@ -434,14 +537,14 @@ def write_replay(pid, seed, run, trace, v, original_ops=None, note=None):
     return path
 
 
-def verify_replay(path, hashseed=977):
+def verify_replay(path, hashseed=977, timeout=300):
     e = dict(os.environ)
     e['PYTHONHASHSEED'] = str(hashseed)
     e['PYTHONDONTWRITEBYTECODE'] = '1'
     e['PYTHONIOENCODING'] = 'utf-8'
     try:
         p = subprocess.run([sys.executable, '-B', MAIN, 'replay', path], env=e,
-                           capture_output=True, text=True, timeout=300, cwd=env.VERIF_DIR)
+                           capture_output=True, text=True, timeout=timeout, cwd=env.VERIF_DIR)
     except subprocess.TimeoutExpired:
         return False, 'timeout'
     if p.returncode == 1 and 'VIOLATION' in p.stdout:
